@@ -110,7 +110,10 @@ def direct_calls(ctx, n_seq, cfgs):
                 reqs.append((c_val, "STKVAL %s %s %s %s %s %d %s" % (f2b(cfg["rate"]), f2b(mult), f2b(min_c), f2b(cs.tax_rate), f2b(tax_mult), side == SIDE.SELL, f2b(v)),
                              [wv], {"value": v, "side": side.name}, None))
                 # futures
-                fut = rnd.choice(S["futures"])
+                # the first look-ups go to the contracts that carry a contract-level override, then to their siblings
+                # (the resolved schedule of a contract must not depend on which contracts were looked up before it)
+                order0 = sorted(S["futures"], key=lambda f_: (f_["id"] not in (cfg.get("future_info") or {}), f_["id"]))
+                fut = order0[_] if _ < len(order0) else rnd.choice(S["futures"])
                 info = resolve_info(fut, cfg.get("future_info") or {})
                 fd = dec[INSTRUMENT_TYPE.FUTURE]
                 eff = rnd.choice([POSITION_EFFECT.OPEN, POSITION_EFFECT.CLOSE, POSITION_EFFECT.CLOSE_TODAY])
